@@ -320,8 +320,12 @@ class _Subst(ast.NodeTransformer):
         return self.generic_visit(n)
 
 
+def _is_static(fn) -> bool:
+    return len(fn.decorator_list) == 1 and isinstance(fn.decorator_list[0], ast.Name) and fn.decorator_list[0].id == 'staticmethod'
+
+
 def _inlinable(fn) -> bool:
-    if isinstance(fn, ast.AsyncFunctionDef) or fn.decorator_list:
+    if isinstance(fn, ast.AsyncFunctionDef) or (fn.decorator_list and not _is_static(fn)):
         return False
     a = fn.args
     if a.vararg or a.kwarg or a.posonlyargs:
@@ -520,10 +524,11 @@ def inline_new_helpers(repo, inv: dict, log: list) -> bool:
                 if any(isinstance(n, ast.Attribute) and n.attr == fn.name or isinstance(n, ast.Name) and n.id == fn.name
                        for n in ast.walk(fn)):
                     continue  # recursive
-                is_method = isinstance(container, ast.ClassDef)
+                in_class = isinstance(container, ast.ClassDef)
+                is_method = in_class and not _is_static(fn)
                 if is_method and not fn.args.args:
                     continue
-                if is_method:
+                if in_class:
                     cq = f'{mname}.{scope}'
                     if cq not in repo.classes:
                         continue
@@ -535,9 +540,10 @@ def inline_new_helpers(repo, inv: dict, log: list) -> bool:
                     callers += [f.node for f in repo.funcs.values() if f.cls is not None and f.cls.qual in family
                                 and f.node not in callers]
 
-                    def is_target(e, name=fn.name):
+                    def is_target(e, name=fn.name, static=not is_method, cname=container.name):
                         return isinstance(e.func, ast.Attribute) and e.func.attr == name and \
-                            isinstance(e.func.value, ast.Name) and e.func.value.id == 'self'
+                            isinstance(e.func.value, ast.Name) and \
+                            (e.func.value.id == 'self' or (static and e.func.value.id == cname))
                 else:
                     callers = [f.node for f in repo.funcs.values() if f.module is mod]
 
